@@ -205,7 +205,8 @@ DecodeClauses(e) ==
   (IF P("C12") /\ HasKind(T, "body")
    THEN LET D == DecMsg(T, pre, 1)
             bn == (FieldsOf(T)[CHOOSE i \in 1..Len(FieldsOf(T)) : FieldsOf(T)[i].kind = "body"]).name
-        IN IF D.ok THEN (IF e.res = "ok" /\ e.vpost[bn]["_t"] = D.val[bn]["_t"] THEN {} ELSE {<<"C12.decode-type", "none">>})
+        IN IF D.ok THEN (IF (e.res = "ok" /\ e.vpost[bn]["_t"] = D.val[bn]["_t"]) \/ e.res \notin {"ok", "err"} THEN {}   \* a panic is C09's
+                         ELSE {<<"C12.decode-type", "none">>})
            ELSE IF D.why = "unknown-key" THEN (IF e.res = "err" THEN {} ELSE {<<"C12.decode-unknown-key", "none">>})
            ELSE {}
    ELSE {})
